@@ -17,7 +17,7 @@ if [ -n "${ISO_WORKTREE:-}" ]; then
   # development: the working tree as it is now (copied, so later edits cannot break this run)
   mkdir -p $SNAP && rsync -a --exclude .git --exclude .cache --exclude .work --exclude bin --exclude replays --exclude seeded /verif/ $SNAP/
 else
-  mkdir -p $SNAP && git -C /verif archive HEAD | tar -x -C $SNAP   # committed state only: edits in progress cannot break a running batch
+  mkdir -p $SNAP && git -C /verif archive ${ISO_VERIF_REV:-HEAD} | tar -x -C $SNAP   # committed state only: edits in progress cannot break a running batch
 fi
 sed -i "s|=> /repo|=> $REPO|" $SNAP/go.mod
 ( cd $SNAP && go build -o bin/vcheck ./cmd/vcheck ) || exit 2
